@@ -608,7 +608,7 @@ def main(chk: Check) -> None:
                 _account(chk, cases, alpha, space)
                 judge(chk, cases, alpha, f'A-{label}<={idepth}#{part_no}', space)
         # (B) random histories
-        n_rand = 4000 if quick else 120000
+        n_rand = 4000 if quick else 60000
         step = max(1, n_rand // (common.NCPU * 4))
         alpha = big_alpha() + MARKERS
         cases = []
